@@ -2116,7 +2116,8 @@ class NumpyTensorSpaceArrayWeighting(ArrayWeighting):
 
     def __hash__(self):
         """Return ``hash(self)``."""
-        return hash((type(self), self.array.tobytes(), self.exponent))
+        # `__eq__` does not compare types, hence the type must not enter here
+        return super(NumpyTensorSpaceArrayWeighting, self).__hash__()
 
     def inner(self, x1, x2):
         """Return the weighted inner product of ``x1`` and ``x2``.
